@@ -366,3 +366,11 @@ func (s *Sched) LocksFree() bool {
 	}
 	return true
 }
+
+// ThreadSteps returns how many scheduling steps thread id has taken.
+func (s *Sched) ThreadSteps(id int) int {
+	if id < 0 || id >= len(s.threads) {
+		return -1
+	}
+	return s.threads[id].steps
+}
